@@ -3,6 +3,9 @@
 package snaps
 
 import (
+	"os"
+
+	"github.com/gkampitakis/ciinfo"
 	"github.com/gkampitakis/go-snaps/internal/vxrt"
 )
 
@@ -70,8 +73,8 @@ func H_C05_match() {
 		}
 		_ = perm
 	}
-	ci := isCI
-	env := updateVAR
+	ci := ciinfo.IsCI
+	env := os.Getenv("UPDATE_SNAPS")
 	create, rewrite, _ := allowed(ci, opt, env)
 	stamp := vxrt.FSStamp()
 	before := dumpDir(dir)
